@@ -34,7 +34,7 @@ const POSITIONS: &[Pos] = &[
     Pos { name: "struct", item: "{A} struct S { some_field: i32, other_one: Inner }",
           keys: &[("rename = \"Wire\"", "rename = \"Wire\"", "rename = \"Other\""), ("rename_all = \"camelCase\"", "rename_all = \"camelCase\"", "rename_all = \"UPPERCASE\""),
                   ("tag = \"kind\"", "tag = \"kind\"", "tag = \"t2\"")],
-          inert: &["deny_unknown_fields", "default", "transparent", "default = \"path::to\"", "expecting = \"x\"", "crate = \"serde2\"", "from = \"Other\"", "remote = \"Other\""] },
+          inert: &["expecting = \"ääääääääääääääääääääääääääääääääääääääääääääääääääääääääääääääääääääää\"", "expecting = \"xääääääääääääääääääääääääääääääääääääääääääääääääääääääääääääääääääääää\"", "deny_unknown_fields", "default", "transparent", "default = \"path::to\"", "expecting = \"x\"", "crate = \"serde2\"", "from = \"Other\"", "remote = \"Other\""] },
     Pos { name: "generic-struct", item: "{A} struct S<T> { some_field: T }",
           keys: &[("bound = \"T: Clone\"", "bound = \"T: Clone\"", "")],
           inert: &["deny_unknown_fields", "default = \"path::to\"", "expecting = \"x\""] },
@@ -43,11 +43,11 @@ const POSITIONS: &[Pos] = &[
                   ("rename_all_fields = \"camelCase\"", "rename_all_fields = \"camelCase\"", "rename_all_fields = \"UPPERCASE\""),
                   ("tag = \"kind\"", "tag = \"kind\"", "tag = \"t2\""), ("tag = \"kind\", content = \"c\"", "tag = \"kind\", content = \"c\"", "tag = \"kind\", content = \"c2\""),
                   ("untagged", "untagged", "")],
-          inert: &["deny_unknown_fields", "expecting = \"x\"", "crate = \"serde2\"", "variant_identifier", "from = \"Other\""] },
+          inert: &["expecting = \"ääääääääääääääääääääääääääääääääääääääääääääääääääääääääääääääääääääää\"", "expecting = \"xääääääääääääääääääääääääääääääääääääääääääääääääääääääääääääääääääääää\"", "deny_unknown_fields", "expecting = \"x\"", "crate = \"serde2\"", "variant_identifier", "from = \"Other\""] },
     Pos { name: "variant-struct", item: "enum E { First, {A} VarOne { some_field: i32 }, Last(i32) }",
           keys: &[("rename = \"wire\"", "rename = \"wire\"", "rename = \"other\""), ("rename_all = \"camelCase\"", "rename_all = \"camelCase\"", "rename_all = \"UPPERCASE\""),
                   ("skip", "skip", ""), ("untagged", "untagged", "")],
-          inert: &["other", "skip_serializing", "alias = \"al\"", "deserialize_with = \"f\"", "borrow"] },
+          inert: &["alias = \"ääääääääääääääääääääääääääääääääääääääääääääääääääääääääääääääääääääää\"", "alias = \"xääääääääääääääääääääääääääääääääääääääääääääääääääääääääääääääääääääää\"", "other", "skip_serializing", "alias = \"al\"", "deserialize_with = \"f\"", "borrow"] },
     Pos { name: "variant-tuple", item: "enum E { First, {A} VarTwo(i32, String), Last { x: i32 } }",
           keys: &[("rename = \"wire\"", "rename = \"wire\"", "rename = \"other\""), ("skip", "skip", ""), ("untagged", "untagged", "")],
           inert: &["other", "skip_deserializing", "alias = \"al\"", "serialize_with = \"f\""] },
@@ -56,7 +56,7 @@ const POSITIONS: &[Pos] = &[
           inert: &["other", "alias = \"al\""] },
     Pos { name: "field", item: "struct S { first: i32, {A} some_field: Inner, last_one: i32 }",
           keys: &[("rename = \"wire\"", "rename = \"wire\"", "rename = \"other\""), ("skip", "skip", ""), ("flatten", "flatten", "")],
-          inert: &["default", "skip_serializing", "default = \"path::to\"", "alias = \"al\"", "skip_serializing_if = \"Option::is_none\"", "borrow", "getter = \"g\"",
+          inert: &["alias = \"ääääääääääääääääääääääääääääääääääääääääääääääääääääääääääääääääääääää\"", "alias = \"xääääääääääääääääääääääääääääääääääääääääääääääääääääääääääääääääääääää\"", "default", "skip_serializing", "default = \"path::to\"", "alias = \"al\"", "skip_serializing_if = \"Option::is_none\"", "borrow", "getter = \"g\"",
                    "bound(serialize = \"T: X\")"] },
     Pos { name: "variant-field", item: "enum E { V { first: i32, {A} some_field: Inner }, W }",
           keys: &[("rename = \"wire\"", "rename = \"wire\"", "rename = \"other\""), ("skip", "skip", ""), ("flatten", "flatten", "")],
